@@ -23,6 +23,7 @@ import (
 	"os"
 	"os/exec"
 	"path/filepath"
+	"sort"
 	"strconv"
 	"strings"
 	"syscall"
@@ -31,18 +32,30 @@ import (
 
 	"github.com/hashicorp/raft"
 	"github.com/rqlite/rqlite/v10/command/proto"
+	"github.com/rqlite/rqlite/v10/snapshot"
+	"github.com/rqlite/rqlite/v10/snapshot/plan"
 )
 
 // c03Image copies the data directory, opens a store on the copy and checks its table.
-func c03Image(e *ssmEnv, point string) {
+func c03Image(e *ssmEnv, point string) { c03ImageWith(e, point, nil) }
+
+// c03ImageWith lets prep change the copy before it is opened (to construct the disk state
+// of a crash inside a background activity); prep returns false to skip the image.
+func c03ImageWith(e *ssmEnv, point string, prep func(img string) bool) {
 	img, err := os.MkdirTemp(ssmTempRoot(), "verif-c03img-")
 	if err != nil {
 		e.t.Fatal(err)
 	}
 	defer os.RemoveAll(img)
 	ssmCopyDir(e.t, e.dir, img)
+	if prep != nil && !prep(img) {
+		return
+	}
 	e.emit("save", "ok")
 	e.emit("crash", "ok")
+	if prep != nil {
+		e.emit("forcerestore", "ok") // prep removed the fingerprint: the snapshot store is what gets read
+	}
 	s2, ln2 := mustNewStoreAtPathsLn(e.id, img, e.fk)
 	defer ln2.Close()
 	s2.NoSnapshotOnClose = true
@@ -81,6 +94,73 @@ func c03Image(e *ssmEnv, point string) {
 	}
 	e.emit("restore", "ok")
 }
+
+// c03ReapCrash builds, in a copy of the data directory, the disk state of a crash at a
+// chosen point of the snapshot store's reap plan, using only the real code: a reap is
+// started on the copy and made to fail at its first operation (a directory sits where
+// the checkpoint's WAL goes), which leaves the REAP_PLAN file behind exactly as a crash
+// would; then the first `k` operations are executed by the real plan Executor; for
+// inside=true the checkpoint operation is additionally left half done — every WAL but
+// the last checkpointed, the last one renamed into place and not yet checkpointed.
+func c03ReapCrash(e *ssmEnv, k int, inside bool) {
+	point := fmt.Sprintf("reap-after-op-%d", k)
+	if inside {
+		point = "reap-inside-checkpoint-last-wal-renamed"
+	}
+	c03ImageWith(e, point, func(img string) bool {
+		sdir := filepath.Join(img, snapshotsDirName)
+		dbs, _ := filepath.Glob(filepath.Join(sdir, "*", "data.db"))
+		if len(dbs) == 0 {
+			return false
+		}
+		sort.Strings(dbs)
+		full := dbs[len(dbs)-1]
+		if err := os.Mkdir(full+"-wal", 0o755); err != nil {
+			e.t.Fatal(err)
+		}
+		ss, err := snapshot.NewStore(sdir)
+		if err != nil {
+			e.t.Fatalf("image snapshot store: %v", err)
+		}
+		_, _, rerr := ss.Reap()
+		ss.Close()
+		os.Remove(full + "-wal")
+		planPath := filepath.Join(sdir, "REAP_PLAN")
+		if rerr == nil || !fileExists(planPath) {
+			return false // nothing to reap (single snapshot)
+		}
+		p, err := plan.ReadFromFile(planPath)
+		if err != nil {
+			e.t.Fatalf("read reap plan: %v", err)
+		}
+		ex := plan.NewExecutor()
+		if inside {
+			if len(p.Ops) == 0 || p.Ops[0].Type != plan.OpCheckpoint || len(p.Ops[0].WALs) == 0 {
+				return false
+			}
+			w := p.Ops[0].WALs
+			if _, err := ex.Checkpoint(p.Ops[0].DB, w[:len(w)-1]); err != nil {
+				e.t.Fatalf("partial checkpoint: %v", err)
+			}
+			if err := os.Rename(w[len(w)-1], p.Ops[0].DB+"-wal"); err != nil {
+				e.t.Fatalf("rename last wal: %v", err)
+			}
+		} else {
+			if k > len(p.Ops) {
+				k = len(p.Ops)
+			}
+			sub := &plan.Plan{Ops: p.Ops[:k]}
+			if err := sub.Execute(ex); err != nil {
+				e.t.Fatalf("partial reap plan: %v", err)
+			}
+		}
+		os.Remove(filepath.Join(img, cleanSnapshotName))
+		e.hist = append(e.hist, point)
+		return true
+	})
+}
+
+func fileExists(p string) bool { _, err := os.Stat(p); return err == nil }
 
 // c03ManualSnapshot performs the steps raft's takeSnapshot performs, with a crash image
 // after each of them.
@@ -169,6 +249,14 @@ func c03History(t *testing.T, rep *vfReport, r *vfRng, nOps int) (ops, impl []st
 			e.exec(false, []ssmStmt{{"a", 200, 1}, {"p", 100, r.Intn(1000)}})
 			c03ManualSnapshot(e)
 			images += 4
+			if !e.broken {
+				c03ReapCrash(e, 0, true)
+				images++
+			}
+			if !e.broken && r.Chance(60) {
+				c03ReapCrash(e, r.Intn(7), false)
+				images++
+			}
 		default:
 			e.closeStore()
 			if err := e.reopen(r.Chance(30)); err != nil {
